@@ -755,8 +755,10 @@ func doCheck(id, tier string) int {
 		// (or a path space explode); what was not explored by then is reported as INCONCLUSIVE, and
 		// whatever violation was found before is still replayed and reported
 		opt.Timeout = 8 * time.Minute
+		opt.AfterViol = 90 * time.Second
 		if tier == "thorough" {
 			opt.Timeout = 90 * time.Minute
+			opt.AfterViol = 10 * time.Minute
 		}
 		if v := os.Getenv("SYMGO_HARNESS_TIMEOUT"); v != "" {
 			if d, err := time.ParseDuration(v); err == nil {
